@@ -38,7 +38,8 @@ CONSTANTS NThreads,    \* request threads are 1..NThreads
           Outcomes,    \* subset of {"ok", "okclose", "fail"}: what the server may do to one attempt
           MaxFails,    \* failing attempts per request (= the retries the caller allows)
           MaxConn,     \* bound on connection objects ever created
-          Deviations,  \* subset of {"D12", "NoAttrArm", "DoublePut", "NoClearConn", "DrainBeforeSwap", "NoBlockRaise"}
+          Deviations,  \* subset of {"D12", "NoAttrArm", "DoublePut", "NoClearConn", "DrainBeforeSwap", "NoBlockRaise",
+                       \*            "LoadOnce"}
           Repairs,     \* subset of {"WakeOnClose"}
           KeepHist     \* BOOLEAN: record hist / script (emission runs); FALSE keeps the stage-1 state space small
 
@@ -52,6 +53,9 @@ SENT == MaxConn + 1          \* the wake-up sentinel of the WakeOnClose repair (
 (* o.ptr "open"|"closed"  o.queue Seq(ids, 0 = None)  o.open set of open sockets  o.holds [thread->set]  *)
 (* o.lastio <<thread, conn>> or <<>>  o.cur / o.got [thread -> <<thread, request>> or <<>>]              *)
 (* o.outs set of [o |-> outcome, closed |-> BOOLEAN]  o.dropped  o.alive  o.waiting (sets of threads)    *)
+(* o.pre  threads that were already parked inside queue.get when close() swapped the queue out            *)
+(* o.sep  threads whose checkout obtained its queue reference by a statement of its own (not by the       *)
+(*        `self.pool.get(...)` expression itself) and has not completed the get yet                        *)
 
 InQueue(o, c) == \E i \in 1..Len(o.queue) : o.queue[i] = c
 IsConn(c) == c # NONE /\ c # SENT
@@ -70,9 +74,13 @@ ClosedAndDroppedLeavesNothing(o) == o.dropped => o.open = {}
 Quiescent(o) == o.alive = {}
 Hung(o) == o.alive # {} /\ o.alive \subseteq o.waiting      \* every unfinished thread is parked in a checkout
 NoHang(o) == ~Hung(o)
-\* the history class of defect D8: a block=True pool, close() has swapped the queue out, and everyone
-\* who is still unfinished is parked in the blocking checkout on that (now orphaned) queue object
-OrphanWaiters(o) == Block /\ o.ptr = "closed" /\ Hung(o)
+\* the history class of defect D8, with the exact pre-conditions of the unchanged code: a block=True pool,
+\* close() has swapped the queue out, everyone who is still unfinished is parked in the blocking checkout on
+\* that (now orphaned) queue object, and each of them either was parked inside queue.get when the swap
+\* happened or holds a reference loaded by the `self.pool.get(...)` expression itself (no statement of the
+\* checkout ran between loading the reference and calling get)
+OrphanWaiters(o) == /\ Block /\ o.ptr = "closed" /\ Hung(o)
+                    /\ \A w \in o.waiting : w \in o.pre \/ w \notin o.sep
 
 \* total monitor: the first failing clause, in a fixed order
 FirstFailing(o) ==
@@ -103,7 +111,7 @@ vars == <<ptr, queue, open, wire, holds, lastio, outs, got, cur, dropped, loc, f
 
 Dev(d) == d \in Deviations
 L0 == [pc |-> "idle", conn |-> NONE, lq |-> "none", left |-> Reqs, fails |-> 0, clean |-> FALSE,
-       err |-> "", site |-> "U", sclose |-> FALSE, dbl |-> FALSE]
+       err |-> "", site |-> "U", sclose |-> FALSE, dbl |-> FALSE, sep |-> FALSE, pre |-> FALSE]
 
 Init == /\ ptr = "open"
         /\ queue = [i \in 1..MaxSize |-> NONE]
@@ -118,10 +126,13 @@ Pc(p) == loc[p].pc
 Pop(q) == SubSeq(q, 1, Len(q) - 1)
 Top(q) == q[Len(q)]
 
+Finished(p) == IF p \in Threads THEN Pc(p) = "idle" /\ loc[p].left = 0 ELSE Pc(p) = "cdone"
+Parked(p) == /\ p \in Threads /\ Pc(p) = "g3" /\ queue = <<>> /\ Block /\ ~Dev("NoBlockRaise")
+
 (* ---- urlopen: start of a request *)
 Start(t) == /\ Pc(t) = "idle" /\ loc[t].left > 0
             /\ Set(t, [loc[t] EXCEPT !.pc = "g1", !.left = @ - 1, !.fails = 0, !.err = "", !.site = "U",
-                                      !.conn = NONE, !.clean = FALSE, !.sclose = FALSE, !.dbl = FALSE])
+                                      !.conn = NONE, !.clean = FALSE, !.sclose = FALSE, !.dbl = FALSE, !.sep = FALSE])
             /\ cur' = [cur EXCEPT ![t] = <<t, Reqs - loc[t].left + 1>>]
             /\ got' = [got EXCEPT ![t] = <<>>]
             /\ UNCHANGED <<ptr, queue, open, wire, holds, outs, dropped, fresh, script, res>>
@@ -129,9 +140,12 @@ Start(t) == /\ Pc(t) = "idle" /\ loc[t].left > 0
 (* ---- _get_conn *)
 \* `if self.pool is None: raise ClosedPoolError` - the exception passes through urlopen's finally,
 \* which calls _put_conn(None) before the caller sees it
+\* (deviation LoadOnce: `pool = self.pool; if pool is None: raise ...; pool.get(...)` - the reference is read
+\*  by a statement of its own, the None test is local, the AttributeError arm is gone)
 G1(t) == /\ Pc(t) = "g1"
          /\ IF ptr = "closed" THEN Set(t, [loc[t] EXCEPT !.pc = "p2", !.err = "ClosedPoolError", !.conn = NONE])
-                              ELSE Set(t, [loc[t] EXCEPT !.pc = "g2"])
+            ELSE IF Dev("LoadOnce") THEN Set(t, [loc[t] EXCEPT !.pc = "g3", !.lq = "q", !.sep = TRUE])
+            ELSE Set(t, [loc[t] EXCEPT !.pc = "g2"])
          /\ UNCHANGED <<ptr, queue, open, wire, holds, outs, got, cur, dropped, fresh, script, res>>
 \* LOAD self.pool (the operand of `.get`): on None the attribute access raises AttributeError, which
 \* _get_conn turns into ClosedPoolError (no queue operation happens)
@@ -147,10 +161,10 @@ G3(t) == /\ Pc(t) = "g3"
                /\ queue' = Pop(queue)
                /\ IF Top(queue) = SENT
                      THEN Set(t, [loc[t] EXCEPT !.pc = "g3s"]) /\ UNCHANGED holds
-                     ELSE /\ Set(t, [loc[t] EXCEPT !.pc = "g4", !.conn = Top(queue)])
+                     ELSE /\ Set(t, [loc[t] EXCEPT !.pc = "g4", !.conn = Top(queue), !.sep = FALSE])
                           /\ holds' = [holds EXCEPT ![t] = IF Top(queue) = NONE THEN @ ELSE @ \cup {Top(queue)}]
             ELSE /\ ~Block \/ Dev("NoBlockRaise")
-                 /\ Set(t, [loc[t] EXCEPT !.pc = "g4", !.conn = NONE]) /\ UNCHANGED <<queue, holds>>
+                 /\ Set(t, [loc[t] EXCEPT !.pc = "g4", !.conn = NONE, !.sep = FALSE]) /\ UNCHANGED <<queue, holds>>
          /\ UNCHANGED <<ptr, open, wire, outs, got, cur, dropped, fresh, script, res>>
 \* WakeOnClose repair: the sentinel is handed on to the next waiter, the request fails with ClosedPoolError
 G3S(t) == /\ Pc(t) = "g3s"
@@ -267,8 +281,10 @@ C0(k) == /\ Pc(k) = "c0"
 \* old_pool, self.pool = self.pool, None
 C1(k) == /\ Pc(k) = "c1"
          /\ ptr' = "closed"
-         /\ Set(k, [loc[k] EXCEPT !.pc = IF Dev("DrainBeforeSwap") THEN "cdone" ELSE "c2",
-                                   !.lq = IF ptr = "open" THEN "q" ELSE "none"])
+         /\ loc' = [p \in Procs |->
+                      IF p = k THEN [loc[k] EXCEPT !.pc = IF Dev("DrainBeforeSwap") THEN "cdone" ELSE "c2",
+                                                   !.lq = IF ptr = "open" THEN "q" ELSE "none"]
+                      ELSE [loc[p] EXCEPT !.pre = Parked(p)]]        \* who is parked inside get at the swap
          /\ UNCHANGED <<queue, open, wire, holds, outs, got, cur, dropped, fresh, script, res>>
 \* _close_pool_connections(old_pool): one get per step until Empty
 C2(k) == /\ Pc(k) = "c2"
@@ -285,11 +301,10 @@ C3(k) == /\ Pc(k) = "c3"
          /\ UNCHANGED <<ptr, open, wire, holds, outs, got, cur, dropped, fresh, script, res>>
 
 (* ---- observable record of the model state *)
-Finished(p) == IF p \in Threads THEN Pc(p) = "idle" /\ loc[p].left = 0 ELSE Pc(p) = "cdone"
-Parked(p) == /\ p \in Threads /\ Pc(p) = "g3" /\ queue = <<>> /\ Block /\ ~Dev("NoBlockRaise")
 Obs == [ptr |-> ptr, queue |-> queue, open |-> open, holds |-> holds, lastio |-> lastio, cur |-> cur, got |-> got,
         outs |-> outs, dropped |-> dropped,
-        alive |-> {p \in Procs : ~Finished(p)}, waiting |-> {p \in Procs : Parked(p)}]
+        alive |-> {p \in Procs : ~Finished(p)}, waiting |-> {p \in Procs : Parked(p)},
+        pre |-> {p \in Procs : loc[p].pre}, sep |-> {p \in Procs : loc[p].sep}]
 
 (* ---- the pool object is dropped: weakref.finalize drains the queue object; nothing else refers to connections *)
 Drop == /\ Quiescent(Obs) /\ ~dropped /\ dropped' = TRUE
